@@ -274,7 +274,9 @@ pub fn gen_case(seed: u64, o: &GenOpts) -> StoreCase {
         let _ = w_fault_ops;
         if w < w_add {
             match r.below(5) {
-                0 => ops.push(Op::AddTrack(gen_spec(&mut r, ids, o.faults, 3))),
+                // stored tracks never contain poisoned observations (an operation that
+                // brings one in fails and is rolled back), so specs inserted as they are must not either
+                0 => ops.push(Op::AddTrack(gen_spec(&mut r, ids, false, 3))),
                 1 => ops.push(Op::NewTrack(gen_spec(&mut r, ids, false, 3))),
                 2 => {
                     let k = r.range(0, 3);
